@@ -294,6 +294,7 @@ type pipeEnd struct {
 	readFault, writeFault bool
 	rejected              bool
 	closeErr              bool
+	zeroReads             int
 	sent                  []byte // everything that was ever queued in `in`
 }
 
@@ -305,6 +306,12 @@ func (p *pipeEnd) Read(b []byte) (int, error) {
 		p.readFault = true
 		c.S.Count("fault:io-err")
 		return 0, errIO
+	}
+	if p.zeroReads < 2 && c.S.FaultP(60) {
+		// a Read may return (0, nil): "nothing happened", not EOF
+		p.zeroReads++
+		c.S.Count("fault:io-zero-read")
+		return 0, nil
 	}
 	c.S.WaitCond("iox.pipe-read(blocked)", func() bool { return len(p.in) > 0 || p.eofReady || p.closed > 0 })
 	if p.closed > 0 {
@@ -619,6 +626,9 @@ func runUnique(c *core.Ctx) {
 		}
 		return s
 	}
+	// a map the caller owns, edits and passes again and again (KeyedMap only)
+	callerMap := map[int]uval{}
+	callerWant := ""
 	nops := c.IntRange(2, 8)
 	for i := 0; i < nops && !c.Failed(); i++ {
 		prev := contents()
@@ -641,15 +651,40 @@ func runUnique(c *core.Ctx) {
 		if isMap && op == 2 {
 			op = 3
 		}
+		checkCaller := func() {}
 		switch op {
 		case 0: // SetValues
 			seen := map[int]bool{}
 			if isMap {
 				mm := map[int]uval{}
+				reuse := c.S.PlanP(400)
+				if reuse {
+					mm = callerMap // the same map object as in earlier calls, edited in between
+					c.S.Count("probe:caller-map-reused")
+				}
 				for _, v := range vals {
 					mm[v[0]] = v
 				}
-				c.Descf("KeyedMap.SetValues(%v)", mm)
+				if reuse && len(mm) > 2 {
+					for k := range mm {
+						if k%2 == 0 {
+							delete(mm, k)
+						}
+					}
+				}
+				want := map[int]uval{}
+				for k, v := range mm {
+					want[k] = v
+				}
+				if reuse {
+					callerWant = show(mm)
+				}
+				checkCaller = func() {
+					if show(want) != show(mm) {
+						c.Fail("C20.U4.caller-map-modified", "KeyedMap changed the map its caller passed: it was {%s}, now it is {%s}", show(want), show(mm))
+					}
+				}
+				c.Descf("KeyedMap.SetValues(%v) reuse=%v", mm, reuse)
 				for k, v := range mm {
 					seen[k] = true
 					apply(v)
@@ -704,6 +739,12 @@ func runUnique(c *core.Ctx) {
 			} else {
 				l.RemoveKeys(keys...)
 			}
+		}
+		checkCaller()
+		// the caller's map stays the caller's: library operations (now or later) must not touch it
+		if isMap && show(callerMap) != callerWant {
+			c.Fail("C20.U4.caller-map-modified", "a KeyedMap operation changed a map that belongs to its caller: it was {%s}, now it is {%s}", callerWant, show(callerMap))
+			return
 		}
 		got := contents()
 		if show(got) != show(model) {
